@@ -16,6 +16,7 @@ FEED_CATS = DISPLAY_CATS + ('convert-from-unit', 'qstr', 'storage-label', 'add-u
 
 
 def run(ctx):
+    stated_amounts_before_mixing(ctx, 'C19.R3')
     from .configtime import late_binding_closures as _late
     _late(ctx, 'C19.R2', classes=('Recipe', 'RecipeStep', 'Container', 'PlateSlicer'))
     from .configtime import groupby_on_sorted_input as _groupby
@@ -166,3 +167,34 @@ def _from_operands(e):
     while isinstance(v, (Ref, Elt)):
         v = v.value
     return isinstance(v, ast.Attribute) and v.attr == 'operands'
+
+
+def stated_amounts_before_mixing(ctx, rule):
+    """create_solution states "Add <amount> of <solute> ..": the amounts are those that were added, read from the new
+    container as it was built from the solved amounts.  Read after the solvent container was poured in, they include
+    whatever solute the solvent container already held."""
+    import ast as _ast
+    from ..flow import Ref, Elt, deep_walk, strip_refs, show
+    model = ctx.model
+    fi = model.func('Container.create_solution')
+    ff = ctx.flow('Container.create_solution')
+    n = 0
+    for c, s_, b in ff.calls:
+        if not (isinstance(c.func, _ast.Attribute) and c.func.attr == 'append' and c.args):
+            continue
+        arg = c.args[0]
+        if not any(isinstance(x, _ast.JoinedStr) for x in deep_walk(arg)):
+            continue
+        n += 1
+        after_mix = None
+        for x in deep_walk(arg):
+            if isinstance(x, (Ref, Elt)):
+                v = x.value if isinstance(x, Ref) else x.value
+                v = strip_refs(v) if not isinstance(v, _ast.Call) else v
+                if isinstance(v, _ast.Call) and isinstance(v.func, _ast.Attribute) and v.func.attr in ('transfer', '_transfer', '_add', '_self_add'):
+                    after_mix = show(v, 60)
+        ctx.ob(rule, fi, s_.lineno, 'the amounts stated for the solutes are read before the solvent is mixed in', after_mix is None,
+               fact=(f"read from the result of `{after_mix}`" if after_mix else 'read from the container built from the solved amounts'),
+               why='a solvent container that already holds some of the solute makes the instruction state more than was added',
+               key='stated solute amounts read after mixing')
+    ctx.count('stated_amount_sites', n)
